@@ -764,6 +764,47 @@ func LocksIn(f *ssa.Function, entry Lockset) map[ssa.Instruction]Lockset {
 	return res
 }
 
+// LocksInMay is the "may be held" counterpart of LocksIn (union at joins): used to find a lock operation that
+// can be reached while the same lock is still held (a missing unlock on a path that loops back).
+func LocksInMay(f *ssa.Function, entry Lockset) map[ssa.Instruction]Lockset {
+	res := map[ssa.Instruction]Lockset{}
+	if len(f.Blocks) == 0 {
+		return res
+	}
+	out := make([]Lockset, len(f.Blocks))
+	in := make([]Lockset, len(f.Blocks))
+	for changed, iter := true, 0; changed && iter < 50; iter++ {
+		changed = false
+		for _, b := range f.Blocks {
+			cur := Lockset{}
+			if b.Index == 0 {
+				cur = entry.Clone()
+			}
+			for _, p := range b.Preds {
+				for k := range out[p.Index] {
+					cur[k] = true
+				}
+			}
+			in[b.Index] = cur.Clone()
+			for _, ins := range b.Instrs {
+				applyLock(cur, ins)
+			}
+			if out[b.Index] == nil || out[b.Index].String() != cur.String() {
+				out[b.Index] = cur
+				changed = true
+			}
+		}
+	}
+	for _, b := range f.Blocks {
+		cur := in[b.Index].Clone()
+		for _, ins := range b.Instrs {
+			res[ins] = cur.Clone()
+			applyLock(cur, ins)
+		}
+	}
+	return res
+}
+
 // LockInfo is the whole-program lock state: locks held before every instruction,
 // with entry locksets of unexported helpers and closures inferred from their call sites.
 type LockInfo struct {
